@@ -83,6 +83,19 @@ pub enum BuiltInFunction {
     VecClone,
 }
 
+/// Truncates a float toward zero; `None` if it is NaN, infinite, or outside the range of a bigint.
+fn float_to_i128(float: f64) -> Option<i128> {
+    let truncated = float.trunc();
+    // 2^127 is exactly representable, and every truncated float in [-2^127, 2^127) fits an i128
+    if truncated.is_nan()
+        || truncated < -170141183460469231731687303715884105728.0
+        || truncated >= 170141183460469231731687303715884105728.0
+    {
+        return None;
+    }
+    Some(truncated as i128)
+}
+
 type BuiltInFunctionReturnBundle = (
     Option<Primitive>,
     Option<Box<dyn RuntimeExecutionBridgeNotifier>>,
@@ -784,10 +797,10 @@ impl BuiltInFunction {
                     bad => unreachable!("{bad}"),
                 };
 
-                let result = Primitive::BigInt(
-                    base.checked_pow(power_non_fp)
-                        .with_context(|| format!("`{base}.pow({power})` does not fit in a bigint"))?,
-                );
+                let result =
+                    Primitive::BigInt(base.checked_pow(power_non_fp).with_context(|| {
+                        format!("`{base}.pow({power})` does not fit in a bigint")
+                    })?);
 
                 Ok((Some(result), None))
             }
@@ -840,9 +853,11 @@ impl BuiltInFunction {
                     ),
                     Primitive::Byte(u8) => Primitive::Int(*u8 as i32),
                     Primitive::Float(f64) => Primitive::Int(
-                        (*f64 as i64)
-                            .try_into()
-                            .with_context(|| format!("`{f64}` cannot be made into a int"))?,
+                        i32::try_from(
+                            float_to_i128(*f64)
+                                .with_context(|| format!("`{f64}` cannot be made into a int"))?,
+                        )
+                        .with_context(|| format!("`{f64}` cannot be made into a int"))?,
                     ),
                     bad => unreachable!("{bad}"),
                 };
@@ -858,7 +873,10 @@ impl BuiltInFunction {
                     Primitive::Int(i32) => Primitive::BigInt(*i32 as i128),
                     Primitive::BigInt(i128) => Primitive::BigInt(*i128),
                     Primitive::Byte(u8) => Primitive::BigInt(*u8 as i128),
-                    Primitive::Float(f64) => Primitive::BigInt((*f64 as i64).into()),
+                    Primitive::Float(f64) => Primitive::BigInt(
+                        float_to_i128(*f64)
+                            .with_context(|| format!("`{f64}` cannot be made into a bigint"))?,
+                    ),
                     bad => unreachable!("{bad}"),
                 };
 
@@ -880,9 +898,11 @@ impl BuiltInFunction {
                     ),
                     Primitive::Byte(u8) => Primitive::Byte(*u8),
                     Primitive::Float(f64) => Primitive::Byte(
-                        (*f64 as i64)
-                            .try_into()
-                            .with_context(|| format!("`{f64}` cannot be made into a byte"))?,
+                        u8::try_from(
+                            float_to_i128(*f64)
+                                .with_context(|| format!("`{f64}` cannot be made into a byte"))?,
+                        )
+                        .with_context(|| format!("`{f64}` cannot be made into a byte"))?,
                     ),
                     bad => unreachable!("{bad}"),
                 };
@@ -896,10 +916,7 @@ impl BuiltInFunction {
 
                 let result: Primitive = match this {
                     Primitive::Int(i32) => Primitive::Float((*i32).into()),
-                    Primitive::BigInt(i128) => Primitive::Float(f64::from(
-                        i32::try_from(*i128)
-                            .with_context(|| format!("`{i128}` cannot be made into a float"))?,
-                    )),
+                    Primitive::BigInt(i128) => Primitive::Float(*i128 as f64),
                     Primitive::Byte(u8) => Primitive::Float(*u8 as f64),
                     Primitive::Float(f64) => Primitive::Float(*f64),
                     bad => unreachable!("{bad}"),
